@@ -71,3 +71,16 @@ package panos
 //vc:  invariant[C06] in processVsysPairs 1 "for _, v1 := range d1.Vsys" (old(markerMissing) ==> len(old(s.errUnmanaged)) > 0) ==> (markerMissing ==> len(s.errUnmanaged) > 0)
 //vc:  invariant[C06] in processVsysPairs 2 "for _, v2 := range d2.Vsys" (old(markerMissing) ==> len(old(s.errUnmanaged)) > 0) ==> (markerMissing ==> len(s.errUnmanaged) > 0)
 //vc:  ensures[C06] @missingMarkerRecorded (old(markerMissing) ==> len(old(s.errUnmanaged)) > 0) ==> (markerMissing ==> len(s.errUnmanaged) > 0)
+
+// ---- C18: rules of the raw / IPv6 part: not marked ones first (top), marked <APPEND> ones last ----
+//vc:ghost var panMergeLen int
+//vc:ghost var panSrcLen int
+//vc:func (*PanConfig).MergeSpoc$1
+//vc:  init panMergeLen = 0
+//vc:  init panSrcLen = 0
+//vc:  assign at "v1.Services = append(v1.Services, v2.Services...)" panMergeLen = len(v1.Rules)
+//vc:  assign at "v1.Services = append(v1.Services, v2.Services...)" panSrcLen = len(v2.Rules)
+//vc:  invariant[C18] 1 "for _, r := range v2.Rules" -1 <= rangeindex && rangeindex < panSrcLen && len(top) + len(v1.Rules) == panMergeLen + rangeindex + 1 && panMergeLen <= len(v1.Rules) &&
+//vc:      (forall j int :: 0 <= j && j < len(top) ==> top[j].Append == nil)
+//vc:  assert[C18] at "v1.Rules = append(top, v1.Rules...)" @noRuleLost len(top) + len(v1.Rules) == panMergeLen + panSrcLen
+//vc:  assert[C18] at "v1.Rules = append(top, v1.Rules...)" @onlyUnmarkedRulesOnTop forall j int :: 0 <= j && j < len(top) ==> top[j].Append == nil
